@@ -103,14 +103,14 @@ func TestC17(t *testing.T) {
 				}
 			}
 		}
-		// 1b. alignment: ASCII runs of every length 0..40, then one of 16 multi-byte / invalid
+		// 1b. alignment: ASCII runs of every length 0..136, then one of 16 multi-byte / invalid
 		// sequences, then an ASCII tail of length 0..12 (8-bytes-at-a-time scanners)
-		if e.enumStage("alignment", "ASCII run of length 0..40 + one of 16 valid/invalid sequences + ASCII tail of length 0..12", true) {
+		if e.enumStage("alignment", "ASCII run of length 0..136 + one of 16 valid/invalid sequences + ASCII tail of length 0..12 (chunked and word-at-a-time scanners)", true) {
 			seqs := []string{"\xff", "\x80", "\xc3", "\xc3\xa9", "\xe2\x82", "\xe2\x82\xac", "\xf0\x9f\x98", "\xf0\x9f\x98\x80", "\xed\xa0\x80", "\xc0\xaf", "\xf4\x90\x80\x80", "\xc3\xa9\xff", "\xff\xc3\xa9", "\xef\xbf\xbd", "\xef\xbf", "\xfe\xfe\xff\xff"}
 			buf := make([]byte, 0, 80)
 			idx := 0
 		al:
-			for L := 0; L <= 40; L++ {
+			for L := 0; L <= 136; L++ {
 				for _, sq := range seqs {
 					idx++
 					if !e.cfg.Mine(idx) {
@@ -120,6 +120,9 @@ func TestC17(t *testing.T) {
 						buf = buf[:0]
 						for i := 0; i < L; i++ {
 							buf = append(buf, byte('a'+i%26))
+						}
+						if L > 0 && T%2 == 1 {
+							buf[0] = 0xff // an early invalid byte: the whole string takes the slow path
 						}
 						buf = append(buf, sq...)
 						for i := 0; i < T; i++ {
